@@ -25,6 +25,10 @@ SubsetsUpTo(S, n) == {T \in SUBSET S : Cardinality(T) <= n}
 RefOrder == << [n |-> "HEAD",          h |-> "h1", p |-> ""],
                [n |-> "refs/heads/m",  h |-> "h1", p |-> ""],
                [n |-> "refs/tags/a",   h |-> "h3", p |-> "h1"],   \* annotated tag: peeled to h1
+               \* a name that extends an annotated tag's name with a byte below '^' (0x5e): in plain byte
+               \* order "refs/tags/a.0" falls between "refs/tags/a" and "refs/tags/a^{}", yet the peeled
+               \* entry of refs/tags/a must come immediately after refs/tags/a
+               [n |-> "refs/tags/a.0", h |-> "h2", p |-> "h1"],
                [n |-> "refs/tags/t",   h |-> "h3", p |-> "h2"],
                [n |-> "refs/tags/u",   h |-> "h2", p |-> ""] >>
 RefIdx == 1..Len(RefOrder)
@@ -43,7 +47,7 @@ AdvCapChoices == {<<>>} \cup Singletons(UploadCaps) \cup Singletons(ValueCaps) \
 AdvValues == {[t |-> "adv", ver |-> ver, refs |-> rs, caps |-> c, shallows |-> sh] :
                 ver \in {0, 1}, rs \in SUBSET RefIdx, c \in (IF Big THEN AdvCapChoices ELSE {<<>>, <<"multi_ack">>, UploadCaps \o ValueCaps,
                           <<"symref=HEAD:refs/heads/m", "symref=refs/remotes/o/HEAD:refs/remotes/o/m", "agent=x">>}),
-                sh \in {{}, {"h1"}, {"h1", "h2"}}}
+                sh \in (IF Big THEN {{}, {"h1"}, {"h1", "h2"}} ELSE {{}, {"h1", "h2"}})}
 
 Data(w) == [k |-> "data", w |-> w, caps |-> <<>>, nul |-> FALSE, nl |-> TRUE]
 IsData(tk) == tk.k = "data"
